@@ -170,6 +170,10 @@ class Constraints(object):
 
     for i, label in enumerate(labels):
 
+        if comb_per_label[i] == 0:
+            # (a class without genuine or without impostor neighbours: no triplet)
+            continue
+
         # generate mask for current label
         gen_mask = known_labels == label
         gen_indx = np.where(gen_mask)
